@@ -618,6 +618,68 @@ fn pair_grid(ctx: &mut Ctx) {
     }
 }
 
+/// A listener may do anything - also send another request through the same service. When the
+/// bulkhead tells its listeners that a call has finished (or failed), that call is over: a
+/// request made from inside the listener (as a request of another thread could arrive at that
+/// moment) finds the slot free. What the listener does must not depend on, nor change, the
+/// outcome of any call.
+fn listener_reentrancy(ctx: &mut Ctx) {
+    use tower::{Layer, Service};
+    use tower_resilience_bulkhead::{BulkheadLayer, BulkheadServiceError};
+    type Job = Box<dyn FnMut() -> String + Send>;
+    fn run(slot: &Arc<Mutex<Option<Job>>>, seen: &Arc<Mutex<Vec<String>>>) {
+        // (taken out first: the nested request's own completion must not recurse)
+        let job = slot.lock().unwrap().take();
+        if let Some(mut job) = job {
+            let r = job();
+            seen.lock().unwrap().push(r);
+        }
+    }
+    for fail in [false, true] {
+        for reject in [true, false] {
+            let w = World::new(0, 10, InnerMode::Script, 1);
+            w.inner.lock().unwrap().default_plan = Plan::now(if fail { Out::Err(0) } else { Out::Ok });
+            let slot: Arc<Mutex<Option<Job>>> = Arc::new(Mutex::new(None));
+            let seen: Arc<Mutex<Vec<String>>> = Arc::new(Mutex::new(vec![]));
+            let b = BulkheadLayer::builder().max_concurrent_calls(1);
+            let b = if reject { b.reject_when_full() } else { b.max_wait_duration(std::time::Duration::from_millis(20)) };
+            let (s1, s2, n1, n2) = (slot.clone(), slot.clone(), seen.clone(), seen.clone());
+            let layer = b.on_call_finished(move |_| run(&s1, &n1)).on_call_failed(move |_| run(&s2, &n2)).build();
+            let mut svc = layer.layer(GatedInner::new(w.inner.clone()));
+            let mut nested = svc.clone();
+            *slot.lock().unwrap() = Some(Box::new(move || {
+                if !matches!(trv_core::world::drive_ready::<_, Req>(&mut nested, 4), Ok(Ok(()))) {
+                    return "not ready".to_string();
+                }
+                let mut f = Box::pin(nested.call(Req::new(2, 0)));
+                let waker = trv_core::ilv::noop_waker();
+                let mut cx = std::task::Context::from_waker(&waker);
+                match std::future::Future::poll(f.as_mut(), &mut cx) {
+                    std::task::Poll::Ready(Ok(_)) => "ok".to_string(),
+                    std::task::Poll::Ready(Err(BulkheadServiceError::Inner(_))) => "inner_error".to_string(),
+                    std::task::Poll::Ready(Err(BulkheadServiceError::Bulkhead(e))) => format!("refused by the bulkhead: {e}"),
+                    std::task::Poll::Pending => "made to wait".to_string(),
+                }
+            }));
+            let outer = catch_unwind(AssertUnwindSafe(|| {
+                w.block_on(async {
+                    let _ = futures::future::poll_fn(|cx| Service::<Req>::poll_ready(&mut svc, cx)).await;
+                    svc.call(Req::new(1, 0)).await.is_ok()
+                })
+            }))
+            .map_err(|_| "panicked");
+            ctx.rep.evaluations += 1;
+            let want = if fail { "inner_error" } else { "ok" };
+            let got = seen.lock().unwrap().clone();
+            let config = format!("bulkhead max=1 {} inner outcome {}, a request made from inside the completion listener", if reject { "reject_when_full" } else { "max_wait=20ms" }, if fail { "error" } else { "ok" });
+            if outer != Ok(!fail) || got != vec![want.to_string()] {
+                ctx.viol("request_from_a_completion_listener_not_admitted", "bulkhead::listener_reentrancy", config, json!(["request 1", "request 2 from the listener of request 1"]), format!("outer call ok={outer:?}; the request made from inside the listener: {got:?}, expected [{want:?}] (nothing is running in the wrapped service at that moment)"));
+            }
+            ctx.rep.witness("request_made_from_inside_a_completion_listener", 1);
+        }
+    }
+}
+
 fn main() {
     trv_core::startup();
     let cli = trv_core::parse_cli();
@@ -638,6 +700,7 @@ fn main() {
     late_poll_grid(&mut ctx);
     no_runtime_grid(&mut ctx);
     two_runtime_grid(&mut ctx);
+    listener_reentrancy(&mut ctx);
     trigger::run(&mut ctx);
     stacks::run(&mut ctx);
     if tier == Tier::Thorough {
